@@ -75,6 +75,11 @@ class ConstructPipeline(RewritePattern):
             if operation is not op and isinstance(operation, ForOp):
                 return
 
+        # values carried from one iteration to the next do not survive the unrolling into prologue,
+        # steady state and epilogue
+        if op.iter_args:
+            return
+
         # create pipeline op inside
         pipeline_op = PipelineOp(Region(Block()))
 
